@@ -517,6 +517,10 @@ func registerHunt(r *lib.Run) {
 
 func huntScenarios(r *lib.Run, rng *lib.Rand) {
 	ras := directedRAs()[:6]
+	cdr := countDomainRAs(rng)
+	for i := 0; i < 4; i++ { // many-entry options in the router-table histories too
+		ras = append(ras, cdr[rng.Intn(len(cdr))])
+	}
 	for i := 0; i < 6; i++ {
 		_, m := genRA(rng)
 		if !hasXN(m) {
